@@ -170,6 +170,22 @@ namespace
     return std::make_pair(ok, v);
   }
 
+  // Compute the exit status for a command which reported |ok|.  We
+  // flush the standard output first, because a command has only
+  // succeeded if everything it printed was accepted by the operating
+  // system (otherwise, for example, output redirected to a full disc
+  // would be silently truncated).
+  int exit_status(bool ok)
+  {
+    std::cout.flush();
+    if (!std::cout.good())
+      {
+	std::cerr << "error: failed to write to the standard output\n";
+	return 1;
+      }
+    return ok ? 0 : 1;
+  }
+
 std::unique_ptr<std::map<std::string, std::string>> option_help;
 
 std::unique_ptr<std::map<std::string, std::string>> make_option_help()
@@ -304,7 +320,7 @@ int main (int argc, char *argv[])
 	case OPT_HELP:
 	  {
 	    DFS::CommandHelp help;
-	    return help.invoke(storage, ctx, extra_args) ? 0 : 1;
+	    return exit_status(help.invoke(storage, ctx, extra_args));
 	  }
 	}
     }
@@ -330,7 +346,7 @@ int main (int argc, char *argv[])
 	{
 	  storage.show_drive_configuration(std::cerr);
 	}
-      return instance->invoke(storage, ctx, extra_args) ? 0 : 1;
+      return exit_status(instance->invoke(storage, ctx, extra_args));
     }
   catch (std::exception& e)
     {
